@@ -56,7 +56,8 @@ class Prop(PoolProp):
     quick_runs = 150
     thorough_runs = 2500
     rule = ("2-4 simulated processes with their own fork-style copy of one storage: writers with disjoint, gapped, reversed "
-            "or clashing identifiers (pre-sized index in a third of the runs), readers polling identifiers while they are being "
+            "or clashing identifiers (pre-sized index in a third of the runs; in half of the runs written data is invisible "
+            "to readers until flush(), in the other half every write is visible at once), readers polling identifiers while they are being "
             "stored, len / is_contiguous / iteration during and after the writes, flush; a final process inspects the quiescent "
             "state; schedules from uniform random walks, PCT-style priorities and long bursts with random switches; every step "
             "(operation, result, index/counter/lock/file digest, enabled set) compared with the Lean model; oracle: every read "
@@ -71,7 +72,11 @@ class Prop(PoolProp):
     assumptions = ["single-line texts", "flush() only when no other process uses the storage (documented requirement)"]
 
     def kind_of(self, cfg):
-        return f"procs:{len(cfg.scripts)}"
+        return f"procs:{len(cfg.scripts)}" + (":buffered" if cfg.buffered else ":write-through")
+
+    def nontrivial(self, cfg, schedule):
+        ops = [op[0] for sc in cfg.scripts for op in sc]
+        return len(schedule) >= 30 and "store" in ops and "read" in ops
 
     def cfg_from_json(self, d):
         return SCfg(**d)
@@ -128,7 +133,7 @@ class Prop(PoolProp):
                 poll.append(["read", rng.choice(gs)])
             scripts.append(poll)
         scripts.append([["iter"], ["len"], ["contig"]] + [["read", g] for g in sorted(set(ids))[:4]])
-        return SCfg(rng.choice([0, 0, max(ids) + 1]), scripts)
+        return SCfg(rng.choice([0, 0, max(ids) + 1]), scripts, buffered=rng.random() < 0.5)
 
     def gen_chooser(self, rng):
         r = rng.random()
